@@ -483,3 +483,143 @@ pub fn is_resource_limit(m: &Matcher) -> bool {
         None => false,
     }
 }
+
+// ------------------------------------------------------------------ parsing cases back (corpus / replay)
+fn sx_items(x: &Sx) -> &[Sx] {
+    match x {
+        Sx::L(v) => v,
+        _ => &[],
+    }
+}
+fn sx_atom(x: &Sx) -> &str {
+    match x {
+        Sx::A(s) => s,
+        _ => "",
+    }
+}
+pub fn sx_field<'a>(items: &'a [Sx], tag: &str) -> &'a [Sx] {
+    for it in items {
+        if let Sx::L(v) = it {
+            if !v.is_empty() && sx_atom(&v[0]) == tag {
+                return &v[1..];
+            }
+        }
+    }
+    &[]
+}
+impl Rx {
+    pub fn from_sx(x: &Sx) -> Rx {
+        let it = sx_items(x);
+        let tag = sx_atom(&it[0]);
+        match tag {
+            "lit" => Rx::Lit(String::from_utf8_lossy(&unhex(sx_atom(&it[1]))).to_string()),
+            "class" => Rx::Class(
+                it[1..]
+                    .iter()
+                    .map(|r| {
+                        let r = sx_items(r);
+                        (sx_atom(&r[0]).parse().unwrap(), sx_atom(&r[1]).parse().unwrap())
+                    })
+                    .collect(),
+            ),
+            "cat" => Rx::Cat(it[1..].iter().map(Rx::from_sx).collect()),
+            "alt" => Rx::Alt(it[1..].iter().map(Rx::from_sx).collect()),
+            "rep" => {
+                let hi: i64 = sx_atom(&it[3]).parse().unwrap();
+                Rx::Rep(
+                    Box::new(Rx::from_sx(&it[1])),
+                    sx_atom(&it[2]).parse().unwrap(),
+                    if hi < 0 { None } else { Some(hi as u32) },
+                )
+            }
+            _ => panic!("unknown regex tag {tag}"),
+        }
+    }
+}
+impl Gram {
+    pub fn from_sx(items: &[Sx]) -> Gram {
+        let rules = sx_field(items, "rules")
+            .iter()
+            .map(|alts| {
+                sx_items(alts)
+                    .iter()
+                    .map(|alt| {
+                        sx_items(alt)
+                            .iter()
+                            .map(|s| {
+                                let s = sx_items(s);
+                                let n: usize = sx_atom(&s[1]).parse().unwrap();
+                                if sx_atom(&s[0]) == "n" {
+                                    Sym::N(n)
+                                } else {
+                                    Sym::T(n)
+                                }
+                            })
+                            .collect()
+                    })
+                    .collect()
+            })
+            .collect();
+        let lexemes = sx_field(items, "lexemes").iter().map(Rx::from_sx).collect();
+        Gram { rules, lexemes }
+    }
+}
+impl Op {
+    pub fn from_sx(x: &Sx) -> Op {
+        let it = sx_items(x);
+        let n = |k: usize| -> usize { sx_atom(&it[k]).parse().unwrap() };
+        match sx_atom(&it[0]) {
+            "mask" => Op::Mask,
+            "commit" => Op::Commit(n(1) as u32),
+            "validate" => Op::Validate(it[1..].iter().map(|a| sx_atom(a).parse().unwrap()).collect()),
+            "accepting" => Op::Accepting,
+            "ffbytes" => Op::FfBytes,
+            "rollback" => Op::Rollback(n(1)),
+            "reset" => Op::Reset,
+            "invalidate" => Op::Invalidate,
+            "stopped" => Op::Stopped,
+            "maskoreos" => Op::MaskOrEos,
+            t => panic!("unknown op {t}"),
+        }
+    }
+}
+pub struct ParsedSession {
+    pub gram: Gram,
+    pub ws: Vec<Vec<u8>>,
+    pub eos: u32,
+    pub ops: Vec<Op>,
+}
+pub fn parse_session(line: &str) -> Option<ParsedSession> {
+    let x = parse(line)?;
+    let it = sx_items(&x);
+    if it.is_empty() || sx_atom(&it[0]) != "session" {
+        return None;
+    }
+    let it = &it[1..];
+    Some(ParsedSession {
+        gram: Gram::from_sx(sx_field(it, "grammar")),
+        ws: sx_field(it, "vocab").iter().map(|a| unhex(sx_atom(a))).collect(),
+        eos: sx_atom(&sx_field(it, "eos")[0]).parse().unwrap(),
+        ops: sx_field(it, "ops").iter().map(Op::from_sx).collect(),
+    })
+}
+/// corpus lines for a property: /verif/corpus/<prop>/*.txt, one case (input s-expression) per line
+pub fn corpus_lines(prop: &str) -> Vec<String> {
+    let mut out = vec![];
+    let dir = std::path::Path::new(env!("CARGO_MANIFEST_DIR")).join("../corpus").join(prop);
+    if let Ok(rd) = std::fs::read_dir(dir) {
+        let mut files: Vec<_> = rd.filter_map(|e| e.ok()).map(|e| e.path()).collect();
+        files.sort();
+        for f in files {
+            if let Ok(s) = std::fs::read_to_string(&f) {
+                for l in s.lines() {
+                    let l = l.trim();
+                    if !l.is_empty() && !l.starts_with('#') {
+                        out.push(l.to_string());
+                    }
+                }
+            }
+        }
+    }
+    out
+}
